@@ -183,7 +183,7 @@ impl Prop for C12 {
         64
     }
     fn cases(&self, t: Tier) -> usize {
-        t.pick(3_000, 80_000)
+        t.pick(20_000, 1_000_000)
     }
     fn rayon_threads(&self) -> Option<usize> {
         Some(3)
